@@ -7,3 +7,5 @@
 mod kernels;
 #[cfg(kani)]
 mod views;
+#[cfg(kani)]
+mod moments;
